@@ -357,8 +357,12 @@ CompactTo(keep, slk) ==
     /\ stale' = {n \in UNames : keep[n] # None} /\ staleMap' = keep
     /\ wdirty' = FALSE /\ hsnap' = SessView /\ Finish("ok")
     /\ UNCHANGED wopen
-\* designed: the new file holds exactly the session's map
+\* designed: the new file holds exactly the session's map ...
 CompactDesigned == CompactTo(SessView, Slack) /\ UNCHANGED devs
+\* ... or, where the names are not all known (no listfile), the call is refused and changes nothing
+CompactRefuse == /\ wopen /\ pc = "idle" /\ NewCall /\ ~vlf
+                 /\ hsnap' = SessView /\ Finish("refused")
+                 /\ UNCHANGED <<hslots, hblocks, hcursor, ddisk, wopen, wdirty, vlf, stale, staleMap, devs>>
 \* deviation F-C06-d: compact() works through the Archive object opened at open():
 \*  - names come from ITS listfile: an entry whose name is not listed there is copied under a
 \*    placeholder name, i.e. lost under its own;
@@ -397,7 +401,7 @@ CommonSteps == \/ FindStep \/ AddRefuseExists \/ InsertAdvance
                \/ RemoveRefuse \/ RemoveMark
                \/ RenameRefuseSrc \/ RenameSrcFound \/ RenameRefuseDst \/ RenameMark
 DesignSteps == CommonSteps \/ AddRefuseFull \/ AddAppend \/ InsertAdd \/ InsertRenameReencrypt \/ InsertGiveUp
-DesignSyncs == Open \/ FlushClean \/ CloseClean \/ FlushRelocate \/ CloseRelocate \/ CompactDesigned
+DesignSyncs == Open \/ FlushClean \/ CloseClean \/ FlushRelocate \/ CloseRelocate \/ CompactDesigned \/ CompactRefuse
 \* as coded now
 FlushRelocateV12 == Ver < 3 /\ FlushRelocate
 CloseRelocateV12 == Ver < 3 /\ CloseRelocate
